@@ -33,14 +33,18 @@ func NewChannelBind(number proto.ChannelNumber, peer net.Addr, log logging.Level
 
 func (c *ChannelBind) start(lifetime time.Duration) {
 	c.lifetimeTimer = time.AfterFunc(lifetime, func() {
-		if !c.allocation.RemoveChannelBind(c.Number) {
-			c.log.Errorf("Failed to remove ChannelBind for %v %x %v", c.Number, c.Peer, c.allocation.fiveTuple)
-		}
+		c.allocation.expireChannelBind(c)
 	})
 }
 
-func (c *ChannelBind) refresh(lifetime time.Duration) {
-	if !c.lifetimeTimer.Reset(lifetime) {
-		c.log.Errorf("Failed to reset ChannelBind timer for %v %x %v", c.Number, c.Peer, c.allocation.fiveTuple)
+// refresh restarts the timeout. It reports false when the timer has already
+// fired (or was stopped): the binding is on its way out and cannot be kept.
+func (c *ChannelBind) refresh(lifetime time.Duration) bool {
+	if c.lifetimeTimer.Reset(lifetime) {
+		return true
 	}
+	// Reset re-arms even a timer that has fired; the expiry under way stays the last one.
+	c.lifetimeTimer.Stop()
+
+	return false
 }
